@@ -129,6 +129,10 @@ def oracle(ck, extended):
     # deferred (meta-device) construction, through load_state_dict
     for (order, qs_, force) in [(2, 'qshift_a', 'alt'), (2, 'qshift_06', 'alt'), (1, 'qshift_a', 'deferred'), (2, 'qshift_a', 'deferred')]:
         rt.guard(ck, oracle_layer_grad, ck, order, 'near_sym_a', qs_, 0.1, 0, npr.standard_normal((1, 2, 8, 8)), False, 'symmetric', force)
+    # every family in BOTH padding modes of the first-order layer (options that each work alone must work together)
+    for (biort_, qshift_) in FAMS:
+        for mode_ in ('zero', 'symmetric'):
+            rt.guard(ck, oracle_layer_grad, ck, 1, biort_, qshift_, 0.1, 0, npr.standard_normal((1, 1, 12, 10)), False, mode_)
     n = (12 if q else 100) * (2 if extended else 1)
     for it in range(n):
         biort, qshift = rng.choice(FAMS)
